@@ -29,6 +29,9 @@ import LianVerif.Drv.Fold
 import LianVerif.Drv.Aref
 import LianVerif.Drv.PyImportPre
 import LianVerif.Drv.Meta
+import LianVerif.Drv.Core
+import LianVerif.Drv.Vocabulary
+import LianVerif.Drv.LowerCore
 
 open Lean LianVerif.Drv
 
@@ -68,6 +71,10 @@ def dispatch (j : Json) : Except String Json := do
   | "aref" => LianVerif.Drv.Aref.handle j
   | "pyimportpre" => LianVerif.Drv.PyImportPre.handle j
   | "meta" => LianVerif.Drv.Meta.handle j
+  | "evalcore" => LianVerif.Drv.Core.handleEval j
+  | "vocab" => LianVerif.Drv.Vocabulary.handle j
+  | "lowercore" => LianVerif.Drv.LowerCore.handleLower j
+  | "coreexec" => LianVerif.Drv.LowerCore.handleModelExec j
   | _ => throw s!"unknown model {m}"
 
 partial def loop (hin hout : IO.FS.Stream) : IO Unit := do
